@@ -206,6 +206,16 @@ def _gen(items, fail_at):
         i += 1
 
 
+class _Stream:
+    """A cursor / response-body style object: it has __iter__ only, and that returns the same one-shot iterator each time."""
+
+    def __init__(self, items):
+        self._it = iter(list(items))
+
+    def __iter__(self):
+        return self._it
+
+
 class _Iter:
     def __init__(self, items, fail_at):
         self.items = list(items)
@@ -278,7 +288,7 @@ def gen_x(rng):
         fail_at = None
         if rng.random() < 0.3:
             fail_at = rng.randint(0, len(items))
-        return {"x": rng.choice(["gen", "iter", "listiter", "mapiter"]), "items": items, "fail_at": fail_at}
+        return {"x": rng.choice(["gen", "iter", "listiter", "mapiter", "stream"]), "items": items, "fail_at": fail_at}
     return {"x": rng.choice(["str", "bytes"]), "text": rng.choice(["", "a", "ab", "abc", "hello"])}
 
 
@@ -371,13 +381,16 @@ class C18(PropBase):
             x = {"list": list, "tuple": tuple, "deque": collections.deque, "set": set, "frozenset": frozenset}[kind](elems)
             order = list(x)
             return x, _pairs_or_enum(order), order, {"reiterable": True}
-        if kind in ("gen", "iter", "listiter", "mapiter"):
+        if kind in ("gen", "iter", "listiter", "mapiter", "stream"):
             elems = [V(e) for e in spec["items"]]
             fa = spec.get("fail_at")
             if kind == "gen":
                 x = _gen(elems, fa)
             elif kind == "iter":
                 x = _Iter(elems, fa)
+            elif kind == "stream":
+                x = _Stream(elems)  # iterable, not an iterator: every iter() is the one stored cursor
+                fa = None
             elif kind == "listiter":
                 x = iter(list(elems))
                 fa = None
@@ -452,7 +465,7 @@ class C18(PropBase):
         if step["op"] == "interleave":
             return True
         spec = step.get("x", {})
-        if spec.get("x") in ("gen", "iter", "listiter", "mapiter"):
+        if spec.get("x") in ("gen", "iter", "listiter", "mapiter", "stream"):
             return True
         if spec.get("cls") in ("vw0same", "vw1same", "VwVarsDyn"):
             return True
@@ -472,7 +485,7 @@ class C18(PropBase):
     def _judge(self, sess, i, op, spec, expected, info, got, exc, before, after, tag=""):
         kind = spec["x"]
         fa = info.get("fail_at")
-        if kind in ("gen", "iter", "listiter", "mapiter"):
+        if kind in ("gen", "iter", "listiter", "mapiter", "stream"):
             if info["n"] == 0:
                 sess.faults["stream_empty"] += 1
                 sess.fault_fired_before = True
@@ -492,7 +505,7 @@ class C18(PropBase):
                                sig="not-a-prefix:" + sig_base)
             return
         if exc is not None:
-            empty = kind in ("gen", "iter", "listiter", "mapiter") and info["n"] == 0
+            empty = kind in ("gen", "iter", "listiter", "mapiter", "stream") and info["n"] == 0
             sess.violation("raised", i, {"spec": _s(spec), "exc": f"{type(exc).__name__}: {exc}"[:200]},
                            sig=f"raised:{type(exc).__name__}:{sig_base}:{'empty-stream' if empty else 'nonempty'}")
             return
